@@ -26,7 +26,7 @@ META = {
                "(state that survives one operation is what matters: any leak shows after one step)",
     "assumptions": ["a history influences later parses only through state the tracker can see or through the compared results"],
 }
-WALL_BUDGET = {"quick": 480, "thorough": 3000}
+WALL_BUDGET = {"quick": 900, "thorough": 3000}
 
 A_STRUCTS = [('1005', dict(mode=('uniform', 1)), 0), ('1005', dict(mode=('uniform', 1)), -7), ('1004', dict(mode=('uniform', 2)), 0),
              ('1004', dict(mode=('uniform', 2)), -3), ('4072', None, 6), ('1230', dict(flags=5), 0), ('1029', dict(mode=('uniform', 2)), 0),
